@@ -79,6 +79,29 @@ CLAIMS = {
                      "the path arguments; every task/result crosses a real pickle round trip (FluffConfig.__getstate__/__setstate__): "
                      "records, per-directory stats, violation count and exit code equal the serial run's.",
                 note="Narrow: OS scheduling, real worker processes and fix-mode writes are outside."),
+    "C25": dict(design_ref="§3 C25", technique=SYM + " (choices solver-forked; a REAL temp tree is built per explored path)",
+                text="Real paths_from_path/_iter_files_in_path/_check_ignore_specs/_iter_config_files on a 3-level tree with a "
+                     ".sqlfluffignore present or absent at each of 4 levels (<=2, thorough 3 at once) holding one of 6 gitignore "
+                     "patterns: the selected files equal the reference (extension + every ignore file in an ancestor directory inside "
+                     "the working directory applies) and are identical for the relative, absolute and '.' spellings.",
+                note="pathspec itself is used inside the reference to decide whether a single pattern matches a relative path. "
+                     "ignore_paths in config files, symlinks and exact-file paths are outside. F7 fixed."),
+    "C26": dict(design_ref="§3 C26", technique=SYM + " (fault point, fault kind, mode, BOM, suffix solver-forked; real filesystem)",
+                text="Real LintedFile._safe_create_replace_file on a real temp directory with os/shutil/tempfile/open rebound to counting "
+                     "fault proxies: for a fault at EVERY operation (stat, NamedTemporaryFile, write, flush, fsync, chmod, move, any "
+                     "direct open/write) of every kind (OSError, KeyboardInterrupt, half-written buffer then OSError, process death in "
+                     "a forked child) the target holds the complete old or complete new content, no temp file remains after a raised "
+                     "error, success keeps mode and BOM, a suffix leaves the original untouched. persist_tree writes only when a "
+                     "fixable violation exists and the text changed.",
+                note="Power loss / fsync durability semantics of the kernel are outside."),
+    "C27": dict(design_ref="§3 C27", technique=SYM + " (choices solver-forked; REAL config files in a temp tree per explored path)",
+                text="Real load_config_up_to_path / load_config_file_as_dict(@cache) / FluffConfig.from_root, make_child_from_path, "
+                     "set_value, process_raw_file_for_config with HOME and cwd redirected: for every choice of which of 7 layers "
+                     "(appdir, home, cwd, proj, proj/sub, extra config, overrides) sets which of two keys (<=2, thorough 3 layers at "
+                     "once) the winner is the highest-precedence layer; an inline directive wins for that file only; mutating one "
+                     "file's config never changes a sibling's, a cousin's or the root config. nested_combine over 3 dicts: later wins, "
+                     "sections merge, outputs share no mutable object with inputs.",
+                note="toml/pyproject files, path-valued settings and plugin defaults are outside."),
     "C29": dict(design_ref="§3 C29", technique="solver-based: z3 Fixedpoint (Datalog) reachability over the live grammar object graph of "
                 "every dialect + z3 regex-inclusion query for lexer totality", engine="z3-direct",
                 text="All 28 bundled dialects are loaded and expanded; every grammar element reachable from the root (elements, Ref targets, "
@@ -161,5 +184,5 @@ NOT_APPLICABLE = {
     "C17": "fixpoint of the whole rule set over arbitrary SQL; not encodable",
 }
 for _p in ["C04", "C05", "C06", "C15", 
-           "C25", "C26", "C27", "C28", "C32"]:
+           "C28", "C32"]:
     NOT_APPLICABLE.setdefault(_p, "check not built yet (planned, see DESIGN.md §3); not claimed until its harness is committed")
